@@ -265,7 +265,10 @@ open EmitModel.Batcher EmitModel.Sched EmitModel.FileSet
     the worker gave up (`no_retry`, or the retry budget ran out — `failed`); or KEPT: its event is complete, on a
     record boundary, in the synced content of a durable file of the set (unless the worker's own retention has
     deleted that file since the batch began). In particular an event written by an attempt that later failed is
-    synced too (D19). Receiver alive, as in `flush_sound`. -/
+    synced too (D19). The statement covers the states AFTER A CRASH as well: a filesystem call that kills the process
+    leaves what the crash left (synced content, durable entries) and ends the execution; what a fired flush callback
+    promised is still there (`PInv.okd` is kept through `FsSteps` of every outcome, crashes included). Receiver alive,
+    as in `flush_sound`. -/
 theorem file_flush_means_synced (cfg : FilePipe.Cfg) (E : List Nat → Prop) (c : Nat) (hsep : cfg.file.sep = [c])
     (hwf : WfEvents E c) (hev : ∀ x, E (cfg.ev x)) (fs0 : FileSet.St) (h0 : FileSet.Inv cfg.file E c fs0)
     (s : FilePipe.St) (h : FilePipe.Reachable cfg fs0 s) (hn : s.ch.registered.Nodup) (ht : s.ch.tornDown = false)
@@ -295,6 +298,22 @@ private def plabels : List FilePipe.Label :=
 example : ((Sched.run (FilePipe.step pcfg) (FilePipe.init emptyState) plabels).map fun s =>
     (s.ch.fired, s.ch.acceptedAt, s.failed, s.okd, s.fs.fs.map (·.2.synced), s.ch.tornDown)) =
     some ([7], [(7, [0, 1])], [], [(0, 0), (1, 0)], [[97, 10], [98, 10]], false) := by rfl
+/-- non-vacuity with a crash: event 0 is flushed (callback 7 fires), then the process dies at filesystem call 8 while
+    the next batch is being written (losing unsynced bytes and the new, not yet durable directory entry): the state is
+    reachable, crashed, and event 0 is still in synced content -/
+private def ccfg : FilePipe.Cfg :=
+  { ch := Batcher.Cfg.real 10,
+    file := { pfx := [97], ext := [108], rollBy := .minute, reuse := false, maxFiles := 3, maxSize := 100, sep := [10] },
+    ev := fun x => [97 + x, 10],
+    plan := fun i => if i = 8 then .crash 1 [5] true else .ok }
+private def clabels : List FilePipe.Label :=
+  [.chan (.send 0), .chan (.whenFlushed 7), .chan .rxTake, .chan .rxBegin, .process pnow 7, .chan .rxFireFlush,
+   .chan (.send 1), .chan .rxTake, .chan .rxBegin, .process pnow 8]
+
+example : ((Sched.run (FilePipe.step ccfg) (FilePipe.init emptyState) clabels).map fun s =>
+    (s.crashed, s.ch.fired, s.okd, s.ch.tornDown, s.fs.fs.map (fun nf => (nf.2.synced, nf.2.unsynced)))) =
+    some (true, [7], [(0, 0)], false, [([97, 10], [])]) := by rfl
+
 end EmitModel.C07
 
 /-! ### Carry-through to the OTLP emitter as a whole (Model/OtlpPipe.lean: the channel with the send loop as its processor) -/
